@@ -22,7 +22,37 @@ func ruleGClone(c *Ctx) {
 	}
 	want := map[string]bool{"Tx": true, "Input": true, "Output": true}
 	got := map[string]map[string]bool{} // "Type.field" -> dependency set
-	for _, b := range fn.Blocks {
+	// Clone itself and the unexported helpers it delegates element copies to
+	fns := []*ssa.Function{fn}
+	seenFn := map[*ssa.Function]bool{fn: true}
+	for i := 0; i < len(fns) && i < 8; i++ {
+		for _, b := range fns[i].Blocks {
+			for _, ins := range b.Instrs {
+				if call, ok := ins.(*ssa.Call); ok {
+					if sc := call.Call.StaticCallee(); sc != nil && !seenFn[sc] && pkgPathOf(sc) == modPath && len(sc.Blocks) > 0 && sc.Signature.Recv() != nil && want[namedOf(sc.Signature.Recv().Type())] && sc.Name() != "Clone" {
+						// only helpers that build a new object of a cloned type
+						builds := false
+						for _, b2 := range sc.Blocks {
+							for _, i2 := range b2.Instrs {
+								if al, isAl := i2.(*ssa.Alloc); isAl && al.Heap && want[namedOf(al.Type())] {
+									builds = true
+								}
+							}
+						}
+						if builds {
+							seenFn[sc] = true
+							fns = append(fns, sc)
+						}
+					}
+				}
+			}
+		}
+	}
+	var blocks []*ssa.BasicBlock
+	for _, f := range fns {
+		blocks = append(blocks, f.Blocks...)
+	}
+	for _, b := range blocks {
 		for _, ins := range b.Instrs {
 			st, ok := ins.(*ssa.Store)
 			if !ok {
